@@ -34,7 +34,12 @@ import (
 // the package-list files; the extractor wants files called pkgs.list
 var files = []string{"var/lib/a/pkgs.list", "opt/pkgs.list", "pkgs.list"}
 
-type pkgex struct{}
+// pkgex counts its Extract calls and cancels the scan's context during call number cancelOn (0 = never).
+type pkgex struct {
+	calls    *int
+	cancelOn int
+	cancel   func()
+}
 
 func (pkgex) Name() string                       { return "verif/pkgex" }
 func (pkgex) Version() int                       { return 0 }
@@ -42,7 +47,11 @@ func (pkgex) Requirements() *plugin.Capabilities { return &plugin.Capabilities{}
 func (pkgex) FileRequired(api filesystem.FileAPI) bool {
 	return path.Base(api.Path()) == "pkgs.list"
 }
-func (pkgex) Extract(ctx context.Context, in *filesystem.ScanInput) (inventory.Inventory, error) {
+func (e pkgex) Extract(ctx context.Context, in *filesystem.ScanInput) (inventory.Inventory, error) {
+	*e.calls++
+	if e.cancelOn > 0 && *e.calls == e.cancelOn {
+		e.cancel()
+	}
 	b, err := io.ReadAll(in.Reader)
 	if err != nil {
 		return inventory.Inventory{}, err
@@ -68,6 +77,7 @@ type layer struct {
 type tcase struct {
 	mode   byte // H N S
 	nf     int
+	cancel int // 0 = never; k = the context is cancelled once the trace has made k re-extractions
 	layers []layer
 }
 
@@ -80,12 +90,16 @@ func (c tcase) line() string {
 			ls[i] = "L/" + strings.Join(l.ops, "/")
 		}
 	}
-	return fmt.Sprintf("trace %c %d %s", c.mode, c.nf, hx.Join(ls, ","))
+	cs := "-"
+	if c.cancel > 0 {
+		cs = fmt.Sprintf("c%d", c.cancel)
+	}
+	return fmt.Sprintf("trace %c %d %s %s", c.mode, c.nf, cs, hx.Join(ls, ","))
 }
 
 func parseCase(s string) tcase {
 	t := strings.Split(s, " ")
-	if len(t) != 4 || t[0] != "trace" {
+	if (len(t) != 4 && len(t) != 5) || t[0] != "trace" {
 		panic("bad case line: " + s)
 	}
 	nf, err := strconv.Atoi(t[2])
@@ -93,8 +107,14 @@ func parseCase(s string) tcase {
 		panic(err)
 	}
 	c := tcase{mode: t[1][0], nf: nf}
-	if t[3] != "-" {
-		for _, l := range strings.Split(t[3], ",") {
+	if len(t) == 5 && t[3] != "-" {
+		c.cancel, err = strconv.Atoi(strings.TrimPrefix(t[3], "c"))
+		if err != nil || c.cancel < 1 {
+			panic("bad cancel token: " + s)
+		}
+	}
+	if ls := t[len(t)-1]; ls != "-" {
+		for _, l := range strings.Split(ls, ",") {
 			if l == "E" {
 				c.layers = append(c.layers, layer{empty: true})
 			} else {
@@ -121,12 +141,19 @@ func run(c tcase) string {
 					case op == "k":
 					case op == "d":
 						es = append(es, imgx.TarEnt{Name: imgx.WhName(files[f]), Typ: tar.TypeReg})
-					case op[0] == 'w':
+					case op[0] == 'w' || op[0] == 's':
 						var sb strings.Builder
 						for _, d := range op[1:] {
 							sb.WriteString("p" + string(d) + "\n")
 						}
-						es = append(es, imgx.TarEnt{Name: files[f], Typ: tar.TypeReg, Body: sb.String()})
+						if op[0] == 'w' {
+							es = append(es, imgx.TarEnt{Name: files[f], Typ: tar.TypeReg, Body: sb.String()})
+						} else {
+							// the location becomes a symlink to a list that lives elsewhere (and is not a package file itself)
+							tgt := fmt.Sprintf("lnk/g%d_%d", i, f)
+							es = append(es, imgx.TarEnt{Name: tgt, Typ: tar.TypeReg, Body: sb.String()},
+								imgx.TarEnt{Name: files[f], Typ: tar.TypeSymlink, Link: "/" + tgt})
+						}
 					default:
 						panic("op " + op)
 					}
@@ -165,8 +192,29 @@ func run(c tcase) string {
 		}
 		defer im.CleanUp()
 		cls, _ := im.ChainLayers()
-		res, err := scalibr.New().ScanContainer(context.Background(), im, &scalibr.ScanConfig{
-			FilesystemExtractors: []filesystem.Extractor{pkgex{}}, Capabilities: &plugin.Capabilities{}})
+		// the main scan extracts every package file present in the final view once; the trace's
+		// re-extractions come after that
+		finalCalls := 0
+		for f := 0; f < c.nf; f++ {
+			last := "k"
+			for _, l := range c.layers {
+				if !l.empty && l.ops[f] != "k" {
+					last = l.ops[f]
+				}
+			}
+			if last[0] == 'w' || last[0] == 's' {
+				finalCalls++
+			}
+		}
+		ctx, cancel := context.WithCancel(context.Background())
+		defer cancel()
+		calls, cancelOn := 0, 0
+		if c.cancel > 0 {
+			cancelOn = finalCalls + c.cancel
+		}
+		res, err := scalibr.New().ScanContainer(ctx, im, &scalibr.ScanConfig{
+			FilesystemExtractors: []filesystem.Extractor{pkgex{&calls, cancelOn, cancel}}, Capabilities: &plugin.Capabilities{},
+			ReadSymlinks: true})
 		if err != nil {
 			return "scanerr"
 		}
@@ -236,6 +284,10 @@ func randCase(r *rand.Rand) tcase {
 	case 3:
 		c.nf = 1
 	}
+	linky := r.Intn(4) == 0 // a quarter of the cases replace locations by symlinks now and then
+	if r.Intn(8) == 0 {
+		c.cancel = 1 + r.Intn(5)
+	}
 	n := 1 + r.Intn(6)
 	last := make([]string, c.nf) // last write per file ("" = none / deleted)
 	for i := 0; i < n; i++ {
@@ -251,6 +303,9 @@ func randCase(r *rand.Rand) tcase {
 			case x < 5:
 				l.ops[f] = "d"
 				last[f] = ""
+			case x == 5 && linky:
+				l.ops[f] = "s" + randPkgs(r, last[f])[1:]
+				last[f] = l.ops[f]
 			default:
 				l.ops[f] = randPkgs(r, last[f])
 				last[f] = l.ops[f]
@@ -262,9 +317,10 @@ func randCase(r *rand.Rand) tcase {
 }
 
 // exhaustive: every history of 1..4 entries over ONE file with packages {1,2}: each entry is an empty
-// layer, or a layer that keeps / deletes / writes {} {1} {2} {1,2} {2,1}.
+// layer, or a layer that keeps / deletes / writes {} {1} {2} {1,2} {2,1} / symlinks to {1} {1,2};
+// each once without cancellation and once cancelled after the first re-extraction.
 func exhaustive(emit func(tcase)) {
-	opts := []string{"E", "k", "d", "w", "w1", "w2", "w12", "w21"}
+	opts := []string{"E", "k", "d", "w", "w1", "w2", "w12", "w21", "s1", "s12"}
 	for n := 1; n <= 4; n++ {
 		total := 1
 		for i := 0; i < n; i++ {
@@ -283,6 +339,11 @@ func exhaustive(emit func(tcase)) {
 				}
 			}
 			emit(c)
+			if n >= 3 {
+				c2 := c
+				c2.cancel = 1
+				emit(c2)
+			}
 		}
 	}
 }
